@@ -850,6 +850,9 @@ func checkC16(w *World, r *Report) {
 					}
 				}
 			}
+			if c, ok := f.K.Root.(*ssa.Call); ok && f.K.Path == "" && c.Call.StaticCallee() != nil && c.Call.StaticCallee().Name() == "peek" {
+				okSite = true
+			}
 		}
 	}
 	inLoop := false
